@@ -23,7 +23,8 @@ CONSTANTS
   MaxMods,     \* modifications per behaviour (counted through ghost-free bound on bid growth)
   MaxDon,      \* donations per behaviour
   WithInvalid, \* also offer malformed / unauthorised variants of every message
-  WithGenesis  \* also offer genesis round trips
+  WithGenesis, \* also offer genesis round trips
+  HookVariants \* C17: also offer every input with one failing listener
 
 Half == D \div 2
 (* creation templates; all times are relative to the block time `now' at which the message is sent *)
@@ -103,7 +104,7 @@ OddBids(s) ==
             [a |-> "Bid", by |-> UserSeq[2], id |-> id, type |-> "W", price |-> D, denom |-> "dB", amt |-> 0],
             [a |-> "Bid", by |-> UserSeq[2], id |-> id, type |-> "W", price |-> 1, denom |-> "dB", amt |-> 1],
             [a |-> "Bid", by |-> UserSeq[2], id |-> id, type |-> "M", price |-> D, denom |-> "dA", amt |-> 100000] }
-          : id \in Ids(s) \cup {Len(s.auctions)} }
+          : id \in {i \in Ids(s) : Len(s.bids[i + 1]) < MaxBids} \cup {Len(s.auctions)} }
 
 Mods(s) ==
   UNION { IF Auc(s, id).status = "Started" /\ Auc(s, id).type = "B"
@@ -162,7 +163,23 @@ Creates(s) ==
 GoodCancels(s) == { [a |-> "Cancel", by |-> Auc(s, i).auctioneer, id |-> i] : i \in {j \in Ids(s) : Auc(s, j).status = "StandBy"} }
 OddCancels(s) == { [a |-> "Cancel", by |-> u, id |-> id] : u \in {UserSeq[1], UserSeq[2], "bad"}, id \in Ids(s) \cup {Len(s.auctions)} } \ GoodCancels(s)
 
-MCInputs(kind, s, g) ==
+HooksOf(a) ==
+  CASE a = "CreateFixed" -> {"BeforeFixedPriceAuctionCreated", "AfterFixedPriceAuctionCreated"}
+    [] a = "CreateBatch" -> {"BeforeBatchAuctionCreated", "AfterBatchAuctionCreated"}
+    [] a = "Cancel" -> {"BeforeAuctionCanceled"}
+    [] a = "Bid" -> {"BeforeBidPlaced"}
+    [] a = "Modify" -> {"BeforeBidModified"}
+    [] a = "AddAllowed" -> {"BeforeAllowedBiddersAdded"}
+    [] a = "UpdateAllowed" -> {"BeforeAllowedBidderUpdated"}
+    [] a = "Block" -> {"BeforeSellingCoinsAllocated"}
+    [] OTHER -> {}
+
+(* C17: every input also in the variants "listener p fails at hook h" *)
+HookVariantsOf(S) ==
+  IF ~HookVariants THEN S
+  ELSE S \cup UNION { { m @@ [hookFail |-> h, hookPos |-> p] : h \in HooksOf(m.a), p \in 1..NL } : m \in S }
+
+MCInputs0(kind, s, g) ==
   CASE kind = "CreateFixed" -> {m \in Creates(s) : m.a = "CreateFixed"}
     [] kind = "CreateBatch" -> {m \in Creates(s) : m.a = "CreateBatch"}
     [] kind = "Block" -> Blocks(s)
@@ -180,6 +197,8 @@ MCInputs(kind, s, g) ==
     [] kind = "OddModify" -> IF WithInvalid THEN OddMods(s) ELSE {}
     [] kind = "OddAllow" -> IF WithInvalid THEN {m \in OddAllow(s) : m.a # "MsgAddAllowed"} ELSE {}
     [] kind = "OddCancel" -> IF WithInvalid THEN OddCancels(s) ELSE {}
+
+MCInputs(kind, s, g) == HookVariantsOf(MCInputs0(kind, s, g))
 
 W(kind, n) == {<<kind, i>> : i \in 1..n}
 BagDefault == W("CreateFixed", 2) \cup W("CreateBatch", 3) \cup W("Cancel", 1) \cup W("AddAllowed", 4)
